@@ -203,4 +203,232 @@ theorem wordsFold_unsigned (f : Str) (m : Nat) : ∀ (w : Bytes) (r : Int), w.le
     | [_, _], hl => simp at hl; omega
     | [_, _, _], hl => simp at hl; omega
 
+theorem bor_zero_shl (t : Int) : Py.bor ((0 : Int) <<< (32 : Nat)) t = t := by
+  rw [Int.shiftLeft_eq, Int.zero_mul]
+  cases t with
+  | ofNat n => show ((0 ||| n : Nat) : Int) = _; simp
+  | negSucc n => show Int.negSucc (n ^^^ (n &&& 0)) = _; simp
+
+theorem top_bit (x : Nat) : (Py.band (x : Int) 128 != 0) = decide (128 ≤ x % 256) := by
+  rw [Py.band_lit_r]
+  have h : x &&& 128 = if x.testBit 7 then 128 else 0 := by
+    apply Nat.eq_of_testBit_eq
+    intro i
+    rw [Nat.testBit_and]
+    have e128 : (128 : Nat) = 2 ^ 7 := by decide
+    by_cases hi : i = 7
+    · subst hi
+      cases hx : x.testBit 7 <;> simp [e128, Nat.testBit_two_pow_self]
+    · have : (128 : Nat).testBit i = false := by rw [e128, Nat.testBit_two_pow]; simp; omega
+      cases hx : x.testBit 7 <;> simp [this]
+  rw [h, Nat.testBit_eq_decide_div_mod_eq]
+  by_cases h2 : 128 ≤ x % 256
+  · have : x / 2 ^ 7 % 2 = 1 := by omega
+    simp [this, h2]
+  · have : ¬ (x / 2 ^ 7 % 2 = 1) := by omega
+    simp [this, h2]
+
+theorem beNat_natsOf (v : Bytes) : (Wire.ofBE (Wire.natsOf v)) = Py.beNat v := by
+  unfold Wire.ofBE Wire.natsOf Py.beNat
+  rw [List.foldl_map]
+
+theorem beNat_zeros (p : Nat) : Py.beNat (List.replicate p (0 : UInt8)) = 0 := by
+  induction p with
+  | zero => rfl
+  | succ p ih =>
+    rw [List.replicate_succ]
+    have := beNat_append [0] (List.replicate p (0 : UInt8))
+    simp only [List.singleton_append] at this
+    rw [this, ih]
+    simp [Py.beNat]
+
+theorem beNat_ones (p : Nat) : Py.beNat (List.replicate p (255 : UInt8)) + 1 = 256 ^ p := by
+  induction p with
+  | zero => rfl
+  | succ p ih =>
+    rw [List.replicate_succ]
+    have := beNat_append [255] (List.replicate p (255 : UInt8))
+    simp only [List.singleton_append, List.length_replicate] at this
+    rw [this, Nat.pow_succ]
+    have h255 : Py.beNat [(255 : UInt8)] = 255 := by decide
+    rw [h255]
+    omega
+
+/-! ### `_parse_mpint` is the loop over the padded string -/
+
+/-- `pad * (4 - len(v) % 4) + v` when the length is not a multiple of four -/
+def padded (v : Bytes) (padb : UInt8) : Bytes :=
+  if v.length % 4 != 0 then List.replicate (4 - v.length % 4) padb ++ v else v
+
+theorem padded_len (v : Bytes) (padb : UInt8) : (padded v padb).length % 4 = 0 := by
+  unfold padded
+  by_cases h : v.length % 4 = 0
+  · simp [h]
+  · simp [h]; omega
+
+theorem parse_mpint_eq_words (v : Bytes) (padb : UInt8) (f : Str) :
+    Gen.Logic.parse_mpint v [padb] f = wordsFold f true 0 (padded v padb) := by
+  have hv2 : (if (Int.ofNat v.length % 4 != 0) = true then Py.repeatB [padb] (4 - Int.ofNat v.length % 4) ++ v else v) = padded v padb := by
+    unfold padded Py.repeatB
+    have hc : (Int.ofNat v.length % 4 != 0) = (v.length % 4 != 0) := by
+      rw [Bool.eq_iff_iff]
+      simp only [bne_iff_ne, ne_eq, Int.ofNat_eq_natCast]
+      omega
+    have hk : (4 - Int.ofNat v.length % 4).toNat = 4 - v.length % 4 := by simp only [Int.ofNat_eq_natCast]; omega
+    rw [hc, hk, List.flatten_replicate_singleton]
+  simp only [Gen.Logic.parse_mpint, hv2]
+  generalize hw : padded v padb = w
+  have hlen : w.length % 4 = 0 := by rw [← hw]; exact padded_len v padb
+  obtain ⟨m, hm⟩ : ∃ m, w.length = 4 * m := ⟨w.length / 4, by omega⟩
+  have hr : Py.range3 0 (Int.ofNat w.length) 4 = (List.range m).map (fun (i : Nat) => 4 * ((0 : Nat) : Int) + 4 * (i : Int)) := by
+    have := range3_words 0 m
+    simp only [Nat.zero_add] at this
+    rw [← this, hm]
+    simp
+  rw [hr]
+  have := words_loop f w m 0 0 (by omega)
+  simp only [Nat.mul_zero, List.drop_zero, beq_self_eq_true] at this
+  rw [← this]
+  show (Py.foldlOpt (wordStep f w) 0 _).bind (fun r => some r) = _
+  cases Py.foldlOpt (wordStep f w) 0 (List.map (fun (i : Nat) => 4 * ((0 : Nat) : Int) + 4 * (i : Int)) (List.range m)) <;> rfl
+
+/-! ### `read_mpint2`: the two's-complement value -/
+
+theorem mpint2_pad_fmt_eq (x : UInt8) (xs : Bytes) :
+    Gen.Logic.mpint2_pad_fmt (x :: xs) = some (if 128 ≤ x.toNat then ([255], ['>', 'i']) else ([0], ['>', 'I'])) := by
+  have hs : Py.slice (x :: xs) 0 1 = [x] := by
+    rw [Py.slice_of_nonneg (by omega) (by omega)]; rfl
+  have hx : x.toNat % 256 = x.toNat := Nat.mod_eq_of_lt x.toNat_lt
+  simp only [Gen.Logic.mpint2_pad_fmt, hs, Py.ordB, Option.bind_some, Int.ofNat_eq_natCast, top_bit, hx]
+  by_cases h : 128 ≤ x.toNat <;> simp [h]
+
+theorem wordsFold_first_irrelevant (first : Bool) (r : Int) (w : Bytes) :
+    wordsFold ['>', 'I'] first r w = wordsFold ['>', 'I'] false r w := by
+  match w with
+  | [] => simp [wordsFold]
+  | [_] => simp [wordsFold]
+  | [_, _] => simp [wordsFold]
+  | [_, _, _] => simp [wordsFold]
+  | a :: b :: c :: d :: rest => cases first <;> simp [wordsFold]
+
+/-- a non-negative number: zero padding, every word unsigned -/
+theorem parse_unsigned (v : Bytes) : Gen.Logic.parse_mpint v [0] ['>', 'I'] = some (Py.beNat v : Int) := by
+  rw [parse_mpint_eq_words, wordsFold_first_irrelevant]
+  obtain ⟨m, hm⟩ : ∃ m, (padded v 0).length = 4 * m := ⟨(padded v 0).length / 4, by have := padded_len v 0; omega⟩
+  rw [wordsFold_unsigned _ m _ _ hm, Int.zero_mul, Int.zero_add]
+  congr 2
+  unfold padded
+  split
+  · rw [beNat_append, beNat_zeros]; simp
+  · rfl
+
+theorem word_ge (a b c d : UInt8) (ha : 128 ≤ a.toNat) : 2147483648 ≤ Py.beNat [a, b, c, d] := by
+  have := beNat_append [a] [b, c, d]
+  simp only [List.singleton_append, List.length_cons, List.length_nil] at this
+  rw [this]
+  have h1 : Py.beNat [a] = a.toNat := by simp [Py.beNat]
+  rw [h1]
+  have : (256 : Nat) ^ (0 + 1 + 1 + 1) = 16777216 := by decide
+  omega
+
+theorem unpack_signed_neg (a b c d : UInt8) (ha : 128 ≤ a.toNat) :
+    Py.unpack1 ['>', 'i'] [a, b, c, d] = some ((Py.beNat [a, b, c, d] : Int) - 4294967296) := by
+  have h := word_ge a b c d ha
+  have e31 : (2 : Nat) ^ 31 = 2147483648 := by decide
+  have : ¬ (Py.beNat [a, b, c, d] < 2 ^ 31) := by omega
+  have e32 : (2 : Int) ^ 32 = 4294967296 := by decide
+  simp [Py.unpack1, this, e32]
+
+/-- a negative number (top bit of the first byte set): `ff` padding, the first word signed -/
+theorem parse_signed (x : UInt8) (xs : Bytes) (hx : 128 ≤ x.toNat) :
+    Gen.Logic.parse_mpint (x :: xs) [255] ['>', 'i'] = some ((Py.beNat (x :: xs) : Int) - (256 : Int) ^ (xs.length + 1)) := by
+  rw [parse_mpint_eq_words]
+  -- the padded string: p bytes ff, then the string; p + length is a positive multiple of four
+  obtain ⟨p, hp⟩ : ∃ p, padded (x :: xs) 255 = List.replicate p (255 : UInt8) ++ (x :: xs) := by
+    unfold padded
+    split
+    · exact ⟨_, rfl⟩
+    · exact ⟨0, rfl⟩
+  have hlen := padded_len (x :: xs) 255
+  rw [hp] at hlen ⊢
+  -- its first four bytes
+  obtain ⟨a, b, c, d, rest, hw, ha⟩ : ∃ a b c d rest, List.replicate p (255 : UInt8) ++ (x :: xs) = a :: b :: c :: d :: rest ∧ 128 ≤ a.toNat := by
+    have hl : 4 ≤ (List.replicate p (255 : UInt8) ++ (x :: xs)).length := by
+      simp only [List.length_append, List.length_replicate, List.length_cons] at hlen ⊢; omega
+    match hq : List.replicate p (255 : UInt8) ++ (x :: xs), hl with
+    | a :: b :: c :: d :: rest, _ =>
+      refine ⟨a, b, c, d, rest, rfl, ?_⟩
+      cases p with
+      | zero => simp at hq; rw [← hq.1]; exact hx
+      | succ p => rw [List.replicate_succ] at hq; simp at hq; rw [← hq.1]; decide
+    | [], h => simp at h
+    | [_], h => simp at h
+    | [_, _], h => simp at h
+    | [_, _, _], h => simp at h
+  obtain ⟨m, hm⟩ : ∃ m, rest.length = 4 * m := by
+    refine ⟨rest.length / 4, ?_⟩
+    have : (a :: b :: c :: d :: rest).length % 4 = 0 := by rw [← hw]; exact hlen
+    simp only [List.length_cons] at this
+    omega
+  rw [hw]
+  simp only [wordsFold, if_true, unpack_signed_neg a b c d ha, Option.bind_some, bor_zero_shl]
+  rw [wordsFold_unsigned _ m _ _ hm]
+  congr 1
+  -- arithmetic: value of the padded string minus 256^(its length) = value of the string minus 256^(its length)
+  have hA : Py.beNat (a :: b :: c :: d :: rest) = Py.beNat [a, b, c, d] * 4294967296 ^ m + Py.beNat rest := by
+    have := beNat_append [a, b, c, d] rest
+    rw [hm, pow256_4] at this
+    exact this
+  have hB : Py.beNat (List.replicate p (255 : UInt8) ++ (x :: xs)) = Py.beNat (List.replicate p (255 : UInt8)) * 256 ^ (xs.length + 1) + Py.beNat (x :: xs) := by
+    rw [beNat_append]; rfl
+  have hC := beNat_ones p
+  have hL : p + (xs.length + 1) = 4 * (m + 1) := by
+    have : (List.replicate p (255 : UInt8) ++ (x :: xs)).length = (a :: b :: c :: d :: rest).length := by rw [hw]
+    simp only [List.length_append, List.length_replicate, List.length_cons] at this
+    omega
+  have hP : (256 : Nat) ^ p * 256 ^ (xs.length + 1) = 4294967296 ^ (m + 1) := by
+    rw [← Nat.pow_add, hL, pow256_4]
+  rw [hw] at hB
+  -- everything in Nat, then cast
+  have key : Py.beNat [a, b, c, d] * 4294967296 ^ m + Py.beNat rest + 256 ^ (xs.length + 1) = Py.beNat (x :: xs) + 4294967296 ^ (m + 1) := by
+    rw [← hA, hB, ← hP]
+    have : Py.beNat (List.replicate p (255 : UInt8)) * 256 ^ (xs.length + 1) + 256 ^ (xs.length + 1) = 256 ^ p * 256 ^ (xs.length + 1) := by
+      rw [← hC, Nat.add_mul, Nat.one_mul]
+    omega
+  have keyZ : ((Py.beNat [a, b, c, d] : Int) * (4294967296 : Int) ^ m + (Py.beNat rest : Int)) + (256 : Int) ^ (xs.length + 1)
+      = (Py.beNat (x :: xs) : Int) + (4294967296 : Int) ^ (m + 1) := by
+    have := congrArg (fun n : Nat => (n : Int)) key
+    simp only [Int.natCast_add, Int.natCast_mul, Int.natCast_pow] at this
+    exact this
+  rw [Int.sub_mul, Int.pow_succ] at *
+  omega
+
+/-- the choice of padding byte and first-word format in `read_mpint2` follows the top bit of the first byte -/
+theorem mpint2_pad_fmt_eq_model (x : UInt8) (xs : Bytes) :
+    Gen.Logic.mpint2_pad_fmt (x :: xs) = some (if 128 ≤ x.toNat then ([255], ['>', 'i']) else ([0], ['>', 'I'])) :=
+  mpint2_pad_fmt_eq x xs
+
+theorem signedBE_cons (b : Nat) (r : List Nat) :
+    Wire.signedBE (b :: r) = if 128 ≤ b then (Wire.ofBE (b :: r) : Int) - (256 : Int) ^ (r.length + 1) else (Wire.ofBE (b :: r) : Int) := rfl
+
+/-- `read_mpint2` on a non-empty string: the regenerated `_parse_mpint`, called with the regenerated choice of padding and format, computes
+    `Wire.signedBE` — the two's-complement value the round-trip theorems of C10 are about — and never raises -/
+theorem parse_mpint_eq_model (v : Bytes) (hv : v ≠ []) :
+    ((Gen.Logic.mpint2_pad_fmt v).bind fun pf => Gen.Logic.parse_mpint v pf.1 pf.2) = some (Wire.signedBE (Wire.natsOf v)) := by
+  match v, hv with
+  | x :: xs, _ =>
+    rw [mpint2_pad_fmt_eq]
+    have hnat : Wire.natsOf (x :: xs) = x.toNat :: Wire.natsOf xs := rfl
+    have hval : Wire.ofBE (x.toNat :: Wire.natsOf xs) = Py.beNat (x :: xs) := by rw [← hnat]; exact beNat_natsOf _
+    have hlen : (Wire.natsOf xs).length = xs.length := by unfold Wire.natsOf; exact List.length_map _
+    rw [hnat, signedBE_cons, hval, hlen]
+    by_cases h : 128 ≤ x.toNat
+    · simp only [h, if_true, Option.bind_some]
+      exact parse_signed x xs h
+    · simp only [h, if_false, Option.bind_some]
+      exact parse_unsigned (x :: xs)
+
+example : ((Gen.Logic.mpint2_pad_fmt [0xfe, 0x80, 0, 0, 0]).bind fun pf => Gen.Logic.parse_mpint [0xfe, 0x80, 0, 0, 0] pf.1 pf.2) = some (-0x180000000) := by
+  decide
+
 end SshAudit.GenLogic
